@@ -22,7 +22,8 @@ ID = "C18"
 LEVEL = "fault_enumeration"
 RULE = ("fault vectors over pipeline shapes: 1-3 inputs x last stage in {preprocess, compile, codegen, assemble, link}; per stage "
         "instance a behaviour from {ok, command missing, exit 1 before reading, exit 1 after writing half its output, exit 1 after "
-        "finishing, SIGSEGV, SIGKILL} and a delay in {0,20,60,150 ms} before it exits; optionally the other stages of the failing "
+        "finishing, SIGSEGV, SIGKILL} and a delay in {0,20,60,150 ms} before it exits; optionally the driver inherits a child it did "
+        "not spawn that exits after 0-100 ms (wait() then reports a foreign pid); optionally the other stages of the failing "
         "pipeline are slow (1 s, must be terminated by the driver). Source 'single' enumerates every (shape, stage instance, fault "
         "kind) with one fault, each with fast and with slow neighbours; source 'multi' draws multi-fault vectors, delays, input "
         "types, output sizes (up to 200 kB, larger than a pipe) with Hypothesis. Oracle: any fault => exit status > 0, linker not "
@@ -61,9 +62,14 @@ def _subreaper():
 
 def _adopted():
     """(pid, state) of stand-in processes whose parent is this process."""
+    names = set(c17.TOOL.values())
+    return [x for x in _children() if x[2] in names]
+
+
+def _children():
     me = os.getpid()
     out = []
-    names = set(c17.TOOL.values())
+    names = None
     for e in os.listdir("/proc"):
         if not e.isdigit():
             continue
@@ -74,7 +80,7 @@ def _adopted():
             continue
         comm = s[s.index("(") + 1:s.rindex(")")]
         rest = s.rsplit(")", 1)[1].split()
-        if int(rest[1]) == me and comm in names:
+        if int(rest[1]) == me:
             out.append((int(e), rest[0], comm))
     return out
 
@@ -185,9 +191,24 @@ def observe(ctx, case):
         env = {"PATH": b + ":/usr/bin:/bin", "LC_ALL": "C", "VSTUB_LOG": paths["log"], "VSTUB_DIR": cnt,
                "VSTUB_PLAN": plan_env(case, v), "VSTUB_SIZE": str(case.get("size", 0))}
         t0 = time.time()
+        argv = [os.path.join(b, "cproc")] + args
+        if case.get("inherit") is not None:
+            # the driver starts life with a child it did not spawn (a wrapper that backgrounds something and then execs the
+            # driver); that child exits while the driver waits for its stages, and wait() reports it
+            argv = ["/bin/sh", "-c", "sleep %.3f & exec \"$0\" \"$@\"" % (case["inherit"] / 1000.0)] + argv
         with open(paths["stdout"], "wb") as fo, open(paths["stderr"], "wb") as fe:
-            p = run([os.path.join(b, "cproc")] + args, cwd=w, env=env, stdout=fo, stderr=fe, timeout=HANG_S)
+            p = run(argv, cwd=w, env=env, stdout=fo, stderr=fe, timeout=HANG_S)
         wall = time.time() - t0
+        if case.get("inherit") is not None:
+            # the inherited child may have been re-parented to this process: collect it
+            for _ in range(50):
+                try:
+                    if os.waitpid(-1, os.WNOHANG)[0] == 0:
+                        if not any(c == "sleep" for _, _, c in _children()):
+                            break
+                        time.sleep(0.01)
+                except ChildProcessError:
+                    break
         # stage processes the driver left behind (they are our children now)
         orphans = _adopted()
         survivors = []
@@ -308,7 +329,7 @@ def judge(case, obs):
 def describe(case, obs=None):
     v, first, linkfault = vector(case)
     pipes, mode = shape(case)
-    d = {"argv": ["cproc"] + command(case)[0], "size": case.get("size", 0),
+    d = {"argv": ["cproc"] + command(case)[0], "size": case.get("size", 0), "inherited-child-exits-after-ms": case.get("inherit"),
          "stages": {("%s#%d" % (k[1], k[0]) if k != "ld" else "ld"): "%s/%dms" % bd for k, bd in v.items() if bd != ("ok", 0)}}
     if obs is not None:
         d["status"] = obs["rc"]
@@ -366,6 +387,8 @@ def check(case, ctx):
         res.labels.append("slow-neighbours")
     if case.get("size"):
         res.labels.append("size:%d" % case["size"])
+    if case.get("inherit") is not None:
+        res.labels.append("inherited-child")
     nontriv = False
     for k, b in faults:
         if k == "ld":
@@ -411,15 +434,22 @@ def single_enum(ctx):
                         else:
                             c["plan"] = {key: [kind, 0]}
                         yield c
+                        if kind in ("fail-after", "segv") and not hold:
+                            # the same fault 150 ms late, while a process the driver did not spawn exits in between
+                            yield dict(c, plan={key: [kind, 150]}, inherit=20)
+            yield dict(case0, inherit=0)
+            yield dict(case0, inherit=20, plan={("ld" if mode == "link" else "%d:%s" % inst[-1]): ["ok", 60]})
 
 
 def multi_strategy(ctx):
     beh = st.sampled_from(["ok"] * 12 + KINDS[1:] * 1)
     stage = st.tuples(beh, st.sampled_from(DELAYS)).map(list)
 
-    def build(types, last, stages, ld, missing, size, v, o, hold):
+    def build(types, last, stages, ld, missing, size, v, o, hold, inherit):
         ok = [t for t in types if last in c17.STAGES_OF[t]] or ["c"]
         case = {"inputs": ok, "last": last, "plan": {}, "missing": [], "size": size, "v": v, "o": o, "hold": hold}
+        if inherit is not None:
+            case["inherit"] = inherit
         pipes, mode = shape(case)
         k = 0
         for i, _, sts in pipes:
@@ -439,7 +469,7 @@ def multi_strategy(ctx):
                      st.lists(st.sampled_from(["c", "c", "c", "cpp-output", "qbe", "assembler", "assembler-with-cpp"]), min_size=1, max_size=3),
                      st.sampled_from(c17.ORDER), st.lists(stage, min_size=12, max_size=12), stage,
                      st.sampled_from([None] * 10 + c17.ORDER), st.sampled_from([0, 0, 0, 3000, 100000, 200000]),
-                     st.booleans(), st.booleans(), st.sampled_from([False, False, True]))
+                     st.booleans(), st.booleans(), st.sampled_from([False, False, True]), st.sampled_from([None, None, 0, 10, 40, 100]))
 
 
 def prepare(ctx):
